@@ -49,6 +49,7 @@ type Violation struct {
 	Model   map[string]uint64 `json:"model"`
 	Choices []int64           `json:"choices"`
 	Known   string            `json:"known,omitempty"`
+	NoNative bool             `json:"no_native,omitempty"` // depends on what a sync.Pool handed back: confirmed by re-execution only
 	Replay  string            `json:"replay,omitempty"`
 	Stack   []string          `json:"stack,omitempty"`
 }
@@ -71,6 +72,7 @@ type harnessRun struct {
 	witnessChoices []int64
 	witnessObs   map[string]string
 	moreWitness  []witnessRec
+	poolPath     bool // the current path took a sync.Pool choice
 	crossSeen, crossChecked, crossUnknown int
 	crossDisagree []string
 	reach        map[string]int
@@ -127,6 +129,7 @@ func (in *Interp) resetPath() {
 		in.run.obs = map[string]Value{}
 		in.run.obsOrder = nil
 		in.run.curKnown = ""
+		in.run.poolPath = false
 	}
 }
 
@@ -477,7 +480,7 @@ func (in *Interp) violation(kind, name, detail string, model Model, stack []stri
 	if run.violKeys[key] > 1 {
 		return
 	}
-	v := &Violation{Harness: run.name, Args: run.args, Kind: kind, Name: name, Detail: detail, Model: map[string]uint64{}, Choices: in.currentChoices(), Known: run.curKnown, Stack: stack}
+	v := &Violation{Harness: run.name, Args: run.args, Kind: kind, Name: name, Detail: detail, Model: map[string]uint64{}, Choices: in.currentChoices(), Known: run.curKnown, Stack: stack, NoNative: run.poolPath}
 	for k, x := range model {
 		v.Model[k] = x
 	}
@@ -672,6 +675,9 @@ type witnessRec struct {
 func (in *Interp) endOfPath() {
 	run := in.run
 	run.completed++
+	if run.poolPath {
+		return // not comparable with a native run
+	}
 	// reachability witness: pc satisfiable (by invariant), fetch one model
 	// further witnesses on paths number 2, 3, 5, 9, 17, ... (translator validation
 	// on more than the first path)
